@@ -43,6 +43,8 @@ SITECUSTOM = os.path.join(os.path.dirname(os.path.dirname(os.path.dirname(os.pat
 def run_ep(ep: str, script: str, args: list[str], cwd: str, ioenc: str = "utf-8", canned: dict | None = None):
     env = dict(os.environ, PYTHONPATH=REPO, PYTHONDONTWRITEBYTECODE="1", PYTHONIOENCODING=ioenc)
     env.pop("CCTV_GPG_CANNED", None)
+    if env.get("COVERAGE_PROCESS_START"):
+        env["PYTHONPATH"] = REPO + os.pathsep + SITECUSTOM
     if canned is not None:
         # the optional dependency stood in for by a signer with fixed outputs (harness/sitecustom/sitecustomize.py)
         import json as _json
